@@ -1856,6 +1856,13 @@ ctl('j5-session-store-per-connection', 'C03', 'J5', 'cmd/main.go',
 
 			var rh hwebsocket.Handler""", 'session-store-shared')
 
+ctl('g9-write-deadline-set-once', 'C08', 'G9', 'websocket/realtime.go',
+    """	h.conn = conn
+}""",
+    """	h.conn = conn
+	conn.SetWriteDeadline(time.Now().Add(h.ClientIdleTimeout))
+}""", 'deadline-armed-per-operation', 'seed C08-25')
+
 os.makedirs(OUT, exist_ok=True)
 bad = 0
 names = set()
